@@ -9,6 +9,8 @@ for pid in sys.argv[1:]:
         if not (os.path.isfile(d + "/patch.diff") and os.path.isfile(ev)):
             continue
         e = json.load(open(ev))
+        # (early second-round evaluations also passed the directory name "Cxxb" as a property id: no such check)
+        e["checks"] = {p: v for p, v in e.get("checks", {}).items() if not (v["rc"] == 3 and any("no check" in l for l in v["lines"]))}
         out = f"{ROOT}/seeded/{pid}_{k}"
         os.makedirs(out, exist_ok=True)
         for f in ("patch.diff", "demo.py", "notes.txt"):
@@ -19,7 +21,7 @@ for pid in sys.argv[1:]:
         missed = [p for p, v in e.get("checks", {}).items() if v["rc"] == 0]
         meta = {
             "id": f"{pid}_{k}",
-            "breaks_property": pid,
+            "breaks_property": pid.rstrip("b"),
             "origin": "written by an independent sub-agent that saw only the property text and its own scratch worktree",
             "needs_to_manifest": notes.strip().split("\n\n")[0][:1500],
             "confirmed": {
